@@ -25,20 +25,20 @@ Variable X A : Type.
 Variable raw : X -> str.
 Variable mkseg : X -> option sref -> result A.
 Variable nm : A -> str.
-Variable admission : str * sref * structure -> list str -> str -> result unit.
+Variable acceptance : str * sref * structure -> list str -> str -> result unit.
 Variable root : sref.
 
 Notation gstate := (gstate A).
 Notation cur_group := (@cur_group A).
-Notation add_child := (add_child A nm admission).
-Notation open_group := (open_group t A nm admission).
-Notation open_groups := (open_groups t A nm admission).
-Notation reopen_group := (reopen_group t A nm admission).
-Notation place := (place X A mkseg nm admission).
-Notation after_found := (after_found t X A raw mkseg nm admission root).
-Notation attempts := (attempts t X A raw mkseg nm admission root).
-Notation step := (step t X A raw mkseg nm admission root).
-Notation run := (run t X A raw mkseg nm admission root).
+Notation add_child := (add_child A nm acceptance).
+Notation open_group := (open_group t A nm acceptance).
+Notation open_groups := (open_groups t A nm acceptance).
+Notation reopen_group := (reopen_group t A nm acceptance).
+Notation place := (place X A mkseg nm acceptance).
+Notation after_found := (after_found t X A raw mkseg nm acceptance root).
+Notation attempts := (attempts t X A raw mkseg nm acceptance root).
+Notation step := (step t X A raw mkseg nm acceptance root).
+Notation run := (run t X A raw mkseg nm acceptance root).
 Notation sspine := (st_spine A).
 Notation sclosed := (st_closed A).
 Notation some_e := (@some_e).
@@ -151,7 +151,7 @@ Proof.
   - cbn [map GroupsFacts.some_e fst snd Groups.open_groups] in H. inv_bind H. rename a into s1.
     inversion Hg; subst.
     pose proof (open_group_mirror s g gr s1 ex Hsp He H2 Ha) as H1.
-    destruct (open_group_spine t A nm admission _ _ _ _ Hsp Ha) as (Hsp1 & _).
+    destruct (open_group_spine t A nm acceptance _ _ _ _ Hsp Ha) as (Hsp1 & _).
     rewrite (IH s1 s' (ex ++ [(g, gr)]) Hsp1 H1 H3 H). now rewrite <- app_assoc.
 Qed.
 
@@ -195,7 +195,7 @@ Proof.
         assert (Hg' : Forall (fun p => good (fst p) (snd p)) extra).
         { apply Forall_app in Hgood. tauto. }
         pose proof (open_groups_mirror extra s s2 _ Hsp He Hg' Ha1) as Hm.
-        destruct (open_groups_spine t A nm admission _ _ _ Hsp Ha1) as (? & _ & ?). auto.
+        destruct (open_groups_spine t A nm acceptance _ _ _ Hsp Ha1) as (? & _ & ?). auto.
       + apply negb_false_iff in Eneq. apply opt_eqb_eq in Eneq.
         assert (Eextra : extra = []).
         { destruct (list_snoc_cases extra) as [->|(extra' & [g gr] & ->)]; [reflexivity|]. exfalso.
@@ -225,7 +225,7 @@ Proof.
              assert (Hgn : good n r).
              { apply (proj1 (Forall_forall _ _) Hgood (n, r)). apply in_or_app. right. now left. }
              pose proof (open_group_mirror up n r s2 ex0 Hup Heu Hgn Ha1) as Hm.
-             destruct (open_group_spine t A nm admission _ _ _ _ Hup Ha1) as (? & _ & ?). auto.
+             destruct (open_group_spine t A nm acceptance _ _ _ _ Hup Ha1) as (? & _ & ?). auto.
           -- injection Ha1 as <-. auto.
         * injection Ha1 as <-. auto.
     - assert (Hp : g_path s = []).
@@ -241,7 +241,7 @@ Proof.
         destruct j as [|j].
         * rewrite Hst in Ha1. change (skipn (S (0 + 0)) (stack_of extra)) with (map some_e extra) in Ha1.
           pose proof (open_groups_mirror extra s s2 [] Hsp He Hgood Ha1) as Hm.
-          destruct (open_groups_spine t A nm admission _ _ _ Hsp Ha1) as (? & _ & ?). auto.
+          destruct (open_groups_spine t A nm acceptance _ _ _ Hsp Ha1) as (? & _ & ?). auto.
         * cbn [GroupsFacts.stack_of nth_error] in Hn. rewrite nth_error_map in Hn.
           destruct (nth_error extra j) as [[g gr]|]; [|discriminate]. cbn in Hn. injection Hn as <-. discriminate.
       + injection Ha1 as <-. destruct Hcase as [[-> _]|(ex' & g & _ & E)]; [|rewrite E in Etn; discriminate].
@@ -376,7 +376,7 @@ Variable X A : Type.
 Variable raw : X -> str.
 Variable mkseg : X -> option sref -> result A.
 Variable nm : A -> str.
-Variable admission : str * sref * structure -> list str -> str -> result unit.
+Variable acceptance : str * sref * structure -> list str -> str -> result unit.
 Variable root : sref.
 Hypothesis Htab : groups_by_name t root.
 Hypothesis Hdist : forall ex, chain t root ex -> NoDup (map fst ex).
@@ -390,17 +390,17 @@ Notation mirror := (mirror t A root).
 Notation seg_ok := (seg_all A unplaced_ok).
 
 Lemma step_unplaced s x s' ex : st_closed A s -> mirror s ex -> Forall seg_ok (g_forest s) ->
-  step t X A raw mkseg nm admission root s x = Ok s' ->
+  step t X A raw mkseg nm acceptance root s x = Ok s' ->
   (exists ex', mirror s' ex') /\ Forall seg_ok (g_forest s').
 Proof.
   intros Hc Hm Hf H. unfold Groups.step in H.
   assert (El : length (g_stack s) = S (length ex)).
   { destruct Hm as (-> & _). unfold stack_of. cbn. now rewrite map_length. }
-  pose proof (attempts_mirror t X A raw mkseg nm admission root Htab Hdist (S (length ex)) x s ex Hc Hm eq_refl) as Ha.
-  rewrite El in H. destruct (attempts t X A raw mkseg nm admission root (S (length ex)) x s) as [[s1|]|] eqn:Ea;
+  pose proof (attempts_mirror t X A raw mkseg nm acceptance root Htab Hdist (S (length ex)) x s ex Hc Hm eq_refl) as Ha.
+  rewrite El in H. destruct (attempts t X A raw mkseg nm acceptance root (S (length ex)) x s) as [[s1|]|] eqn:Ea;
     cbn [bind] in H; [| |discriminate].
   - injection H as <-. split; [exact Ha|].
-    apply (attempts_seg_all t X A raw mkseg nm admission root unplaced_ok (S (length ex)) x s s1 Hf); [|exact Ea].
+    apply (attempts_seg_all t X A raw mkseg nm acceptance root unplaced_ok (S (length ex)) x s s1 Hf); [|exact Ea].
     intros a sr E. discriminate.
   - unfold Groups.place in H. apply bind_ok in H. destruct H as (a & Hmk & H).
     destruct (add_child_eq _ _ _ _ _ _ H) as (E1 & E2 & E3). split.
@@ -410,7 +410,7 @@ Proof.
 Qed.
 
 Lemma run_unplaced xs : forall s s' ex, st_closed A s -> mirror s ex -> Forall seg_ok (g_forest s) ->
-  run t X A raw mkseg nm admission root xs s = Ok s' -> Forall seg_ok (g_forest s').
+  run t X A raw mkseg nm acceptance root xs s = Ok s' -> Forall seg_ok (g_forest s').
 Proof.
   induction xs as [|x xs IH]; intros s s' ex Hc Hm Hf H; cbn [Groups.run] in H.
   - now injection H as <-.
@@ -420,7 +420,7 @@ Proof.
 Qed.
 
 Theorem find_groups_unplaced xs f :
-  find_groups t X A raw mkseg nm admission root xs = Ok f -> Forall seg_ok f.
+  find_groups t X A raw mkseg nm acceptance root xs = Ok f -> Forall seg_ok f.
 Proof.
   unfold find_groups. intros H. apply bind_ok in H. destruct H as (s & Hs & H). injection H as <-.
   apply (run_unplaced xs (init_state A root) s []); try assumption.
